@@ -486,7 +486,7 @@ def grun (M : Mach) (g : M.GState) : List Label → Option M.GState
 end Mach
 
 /-- The SC machine, for the ghost layer: every thread's "view of `sequence`" is the current value. -/
-def SC.mach (chk : Nat → Nat → Bool) : Mach where
+@[reducible] def SC.mach (chk : Nat → Nat → Bool) : Mach where
   σ := SC.State
   step := SC.step chk
   loc := fun s t => s.thr t
@@ -495,7 +495,7 @@ def SC.mach (chk : Nat → Nat → Bool) : Mach where
   hist := fun s => s.hist
 
 /-- The release/acquire machine, for the ghost layer. -/
-def RA.mach (chk : Nat → Nat → Bool) : Mach where
+@[reducible] def RA.mach (chk : Nat → Nat → Bool) : Mach where
   σ := RA.State
   step := RA.step chk
   loc := fun s t => (s.thr t).loc
